@@ -215,6 +215,9 @@ def _cases(tier):
 INDEX_FORMS = [
     ((4,), "1"), ((4,), "-1"), ((4,), "slice(1, 3)"), ((4,), "slice(None, None, -1)"), ((4,), "slice(3, None, -2)"), ((4,), "[0, 0, 2]"), ((4,), "__import__('numpy').array([1, 1, 1, 3])"),
     ((4,), "__import__('numpy').array([True, False, True, True])"), ((4,), "Ellipsis"), ((4,), "None"), ((4,), "(None, slice(None, 2))"), ((4,), "[]"), ((4,), "[-1, 0]"),
+    ((3, 4), "(slice(None), slice(None, None, -1))"), ((3, 4), "(slice(None, None, -1), slice(None))"), ((3, 4), "(slice(None, None, -1),)"), ((3, 4), "(slice(0, 3), slice(3, None, -1))"),
+    ((3, 4), "(slice(None, None, -1), slice(None, None, -1))"), ((2, 3, 2), "(slice(None), slice(None, None, -1), slice(None))"), ((4,), "(slice(None, None, -1),)"),
+    ((2, 3), "[True, False]"), ((3,), "[True, False, True]"), ((2, 3), "[[True, False, True], [False, True, True]]"),
     ((3, 4), "1"), ((3, 4), "(1, 2)"), ((3, 4), "(slice(None), 1)"), ((3, 4), "(slice(None), [0, 0, 2])"), ((3, 4), "([1, 1, 2], [2, 2, 0])"), ((3, 4), "(Ellipsis, -1)"),
     ((3, 4), "(slice(None, None, 2), slice(1, None, 2))"), ((3, 4), "(None, 1, None)"), ((3, 4), "__import__('numpy').array([[True, False, True, False], [False, False, False, True], [True, True, False, False]])"),
     ((3, 4), "(__import__('numpy').array([True, False, True]), slice(1, 3))"), ((3, 4), "([0, 2], slice(None, None, -1))"), ((3, 4), "(__import__('numpy').array([[0, 1], [1, 0]]), __import__('numpy').array([[3, 3], [0, 3]]))"),
@@ -344,6 +347,13 @@ def run_case(case):
             ve = H.entries(val)
             okv = H.shape_of(val) == oshape and len(ve) == len(pe) and all(same(x, y) for x, y in zip(ve, pe))
             out.append(("X-value", okv, f"primal under tracing: shape {H.shape_of(val)} vs plain {oshape}" + ("" if okv else f"; values {ve[:4]} vs {pe[:4]}")))
+            try:  # the same call evaluated by NumPy itself (re-implemented wrappers must agree with the function they replace)
+                raw = f0(onp, *args)
+                re_ = H.entries(raw)
+                okn = H.shape_of(raw) == H.shape_of(val) and all(same(x, y) for x, y in zip(ve, re_))
+                out.append(("X-numpy", okn, f"autograd.numpy result shape {H.shape_of(val)}, NumPy's {H.shape_of(raw)}" + ("" if okn else f"; values {ve[:4]} vs {re_[:4]}")))
+            except Exception:
+                pass
             shape_ok, bad_msg, reuse_ok = True, None, True
             for G in Gs:
                 ge = H.entries(G)
@@ -454,7 +464,7 @@ def _worker(case):
 
 
 CLAUSE_PROPS = {
-    "C01": ("X-vjp", "X-shape"), "C02": ("X-jvp", "X-jvp-shape"), "C04": ("X-vjp", "X-jvp"), "C05": ("X-shape", "X-jvp-shape"), "C06": ("X-value",),
+    "C01": ("X-vjp", "X-shape"), "C02": ("X-jvp", "X-jvp-shape"), "C04": ("X-vjp", "X-jvp"), "C05": ("X-shape", "X-jvp-shape"), "C06": ("X-value", "X-numpy"),
     "C07": ("X-hess",), "C10": ("X-reuse", "X-frozen"), "C11": ("X-vjp", "X-jvp", "X-shape", "X-hess"),
 }
 
